@@ -68,17 +68,21 @@ def _circle_once(pupil, n, r, cx, cy, origin):
                      origin=origin, got=C, want=want)
 
 
-def case_circle(ctx, n, origin, prefix):
+def case_circle(ctx, n, origin, prefix, bounded=False):
     pupil, _ = _mods()
     r, cx, cy = var("r"), var("cx"), var("cy")
     pre = [z(r.re) >= 0]
+    if bounded:
+        # radius and centre within a box: code that derives INTEGER quantities from them (window bounds, counts) then has
+        # finitely many cases, which are enumerated
+        pre += [z(r.re) <= 2, z(cx.re) >= -1, z(cx.re) <= 1, z(cy.re) >= -1, z(cy.re) <= 1]
     ctx.encoded(pupil.circle)
     ctx.bounds.update(n=n, origin=origin, radius="symbolic >= 0", centre="symbolic (cx, cy), any real", split_prefix=str(prefix))
 
     def go():
         with npx.symbolic(pupil):
             return pupil.circle(r, n, (cx, cy), origin)
-    paths, ex = core.run_paths(go, pre, prefix=prefix)
+    paths, ex = core.run_paths(go, pre, prefix=prefix, **(dict(max_paths=30000) if bounded else {}))
     ctx.explored(ex, len(paths))
     ind = indicator(n, r, cx, cy, origin)
     names = dict(r=r, cx=cx, cy=cy)
@@ -332,6 +336,8 @@ def build_cases(tier):
             for pf in core.prefixes(bits):
                 cases.append(("circle/n=%d/%s/split=%s" % (n, origin, "".join("T" if b else "F" for b in pf) or "-"), case_circle,
                               dict(n=n, origin=origin, prefix=pf)))
+    cases.append(("circle-bounded/n=2/middle", case_circle, dict(n=2, origin="middle", prefix=(), bounded=True)))
+    cases.append(("circle-bounded/n=2/corner", case_circle, dict(n=2, origin="corner", prefix=(), bounded=True)))
     cases.append(("circle/fresh-results", case_circle_fresh, {}))
     act = [((2, 2), 1), ((2, 2), 2), ((3, 3), 2), ((4, 4), 2), ((5, 5), 2), ((3, 3), 3)]
     if tier == "thorough":
